@@ -4,8 +4,9 @@
 # then stores it under /verif/seeded/<prop>-<letter>/ and runs the property's quick check against it in /repo.
 set -u
 P=$1; L=$2
-WT=/tmp/seedwt/$P
-OUT=/tmp/seedout/$P
+WT=${SEED_WT:-/tmp/seedwt/$P}
+OUT=${SEED_OUT:-/tmp/seedout/$P}
+STORE=${5:-$P-$L}
 export GOFLAGS=-mod=mod GOPROXY=off GOSUMDB=off GOTOOLCHAIN=local
 cd $WT || exit 2
 git checkout -q -- . ; git clean -fdq
@@ -25,7 +26,7 @@ echo "demo with mutant: $demo_mut"
 case "$suite_nodemo" in ok*) ;; *) echo "REJECT: suite fails with mutant"; exit 1;; esac
 case "$demo_clean" in ok*) ;; *) echo "REJECT: demo fails on clean tree"; exit 1;; esac
 case "$demo_mut" in *FAIL*|*panic*) ;; *) echo "REJECT: demo does not fail with mutant"; exit 1;; esac
-D=/verif/seeded/$P-$L
+D=/verif/seeded/$STORE
 mkdir -p $D
 cp $OUT/$L.diff $D/patch.diff
 cp $OUT/${L}_demo_test.go $D/demo_test.go
@@ -40,13 +41,13 @@ $r"
 done
 git -C /repo checkout -- .
 echo "check: $res"
-python3 - "$P" "$L" "$suite_nodemo" "$demo_clean" "$demo_mut" "$res" "${3:-}" <<'PY'
+python3 - "$P" "$L" "$suite_nodemo" "$demo_clean" "$demo_mut" "$res" "${3:-}" "$OUT" "$STORE" <<'PY'
 import json,sys
-P,L,suite,dc,dm,res,needs=sys.argv[1:8]
-notes=open(f'/tmp/seedout/{P}/notes.md').read()
+P,L,suite,dc,dm,res,needs,OUT,STORE=sys.argv[1:10]
+notes=open(f'{OUT}/notes.md').read()
 meta={"property":P,"mutant":L,"breaks":P,"needs_to_manifest":needs or "see notes.md excerpt","source":"independent sub-agent given only the property text and a scratch worktree",
  "confirmed":{"suite_with_mutant":suite,"demo_without_mutant":dc,"demo_with_mutant":dm,"commands":"tools/confirm_seed.sh (apply patch in scratch worktree; go test ./...; go test -run SeedDemo with and without the patch)"},
  "rtv_check_output":res.splitlines(),"detected":"VIOLATION" in res}
-json.dump(meta,open(f'/verif/seeded/{P}-{L}/meta.json','w'),indent=1)
-open(f'/verif/seeded/{P}-{L}/notes.md','w').write(notes)
+json.dump(meta,open(f'/verif/seeded/{STORE}/meta.json','w'),indent=1)
+open(f'/verif/seeded/{STORE}/notes.md','w').write(notes)
 PY
